@@ -93,7 +93,9 @@ func setupTLSConfig(sslOpts *SslOptions) (*tls.Config, error) {
 		if err != nil {
 			return nil, fmt.Errorf("connectionpool: unable to load X509 key pair: %v", err)
 		}
-		tlsConfig.Certificates = append(tlsConfig.Certificates, mycert)
+		// tls.Config.Clone is shallow: do not append into the caller's backing array
+		n := len(tlsConfig.Certificates)
+		tlsConfig.Certificates = append(tlsConfig.Certificates[:n:n], mycert)
 	}
 
 	return tlsConfig, nil
